@@ -1093,7 +1093,10 @@ async def _parse_action_body(
         if action_arg is None:
             raise HTTPBadRequest(reason="InvalidActionArgument")
         state_var = action_arg.related_state_variable
-        kwargs[arg.tag] = state_var.coerce_python(arg.text or "")
+        try:
+            kwargs[arg.tag] = state_var.coerce_python(arg.text or "")
+        except ValueError as exc:
+            raise HTTPBadRequest(reason="InvalidActionArgumentValue") from exc
 
     return action_name, kwargs
 
